@@ -57,6 +57,8 @@ const FULL: Limits = Limits { cpu_s: 10, wall_ms: 60_000 };
 /// first-pass limits (see `hang_policy` in the evidence)
 const FIRST: Limits = Limits { cpu_s: 1, wall_ms: 20_000 };
 const SIGXCPU: i32 = 24;
+/// groups of cases over the first limit up to this size are re-run completely with the full limit
+const SMALL_GROUP: usize = 16;
 const MEM_CAP: u64 = 4 << 30;
 const JOBS: usize = 16;
 
@@ -1424,7 +1426,7 @@ fn glyphs_top_level_entries(s: &str) -> Vec<(String, usize, usize)> {
 fn glyphs_text_cases(tier: Tier, out: &mut Vec<Case>) -> Vec<Arc<Base>> {
     let fixtures: Vec<&str> = tier.pick(
         vec!["glyphs3/WghtVar.glyphs"],
-        vec!["glyphs3/WghtVar.glyphs", "glyphs2/WghtVar.glyphs", "glyphs3/Component.glyphs", "glyphs2/Component.glyphs"],
+        vec!["glyphs3/WghtVar.glyphs", "glyphs2/WghtVar.glyphs", "glyphs3/NonExportWithBraceLayer.glyphs", "glyphs2/IntermediateLayer.glyphs"],
     );
     let mut bases = vec![];
     for fx in fixtures {
@@ -1468,9 +1470,24 @@ fn glyphs_text_cases(tier: Tier, out: &mut Vec<Case>) -> Vec<Arc<Base>> {
             .filter_map(|l| l.trim().strip_prefix("glyphname = "))
             .map(|v| v.trim_end_matches(';').to_string())
             .collect();
-        for (ri, (at, _)) in text.match_indices("\nref = ").enumerate() {
-            let vs = at + "\nref = ".len();
-            let ve = text[vs..].find(';').map(|x| x + vs).unwrap_or(vs);
+        let mut ref_sites: Vec<(usize, usize)> = vec![];
+        {
+            let (mut off, mut in_components) = (0usize, false);
+            for l in text.split_inclusive('\n') {
+                let t = l.trim_end();
+                if t == "components = (" {
+                    in_components = true;
+                } else if t == ");" {
+                    in_components = false;
+                }
+                let key = if t.starts_with("ref = ") { Some("ref = ") } else if in_components && t.starts_with("name = ") { Some("name = ") } else { None };
+                if let (Some(k), true) = (key, t.ends_with(';')) {
+                    ref_sites.push((off + k.len(), off + t.len() - 1));
+                }
+                off += l.len();
+            }
+        }
+        for (ri, (vs, ve)) in ref_sites.into_iter().enumerate() {
             for nm in names.iter().map(String::as_str).chain(["nope"]) {
                 if &text[vs..ve] == nm {
                     continue;
@@ -1545,6 +1562,9 @@ fn vkey(c: &Case, k: &Kind) -> String {
     let flags = FLAGSETS[c.flagset].0;
     if c.class == "component-graph" {
         format!("{}:{}:flags={}", c.fault, k.name(), flags)
+    } else if c.class == "structural" && c.fault.starts_with("number=") {
+        // one key per file kind, whatever the replacement value (it is in the description)
+        format!("{}:{}:number:{}", k.name(), c.class, c.fault.split(':').nth(1).unwrap_or(""))
     } else {
         format!("{}:{}:{}", k.name(), c.class, c.fault)
     }
@@ -1643,6 +1663,17 @@ fn main() {
         }
     }
     eprintln!("[C15] {} cases generated in {:.1}s", cases.len(), t0.elapsed().as_secs_f64());
+    if std::env::var("C15_COUNT_ONLY").is_ok() {
+        let mut n: BTreeMap<(&str, usize), usize> = BTreeMap::new();
+        for c in &cases {
+            *n.entry((c.class, c.flagset)).or_default() += 1;
+        }
+        for ((class, fs), k) in n {
+            println!("{class:18} {:18} {k}", FLAGSETS[fs].0);
+        }
+        vcore::cleanup_scratch();
+        std::process::exit(0);
+    }
 
     // ---- phase 1: every case, short limit
     let mut results: Vec<Option<Outcome>> = vcore::par_for(cases.len(), JOBS, |i| {
@@ -1654,7 +1685,8 @@ fn main() {
     eprintln!("[C15] phase 1 done at {:.1}s", t0.elapsed().as_secs_f64());
 
     // ---- phase 2: cases over the short limit are judged at the full limit
-    // Per violation key the `confirm` smallest cases are re-run with the FULL limits. If all of them
+    // A group (one violation key) of at most SMALL_GROUP cases is re-run completely. Of a larger
+    // group the `confirm` smallest cases are re-run with the FULL limits. If all of them
     // still do not finish, the rest of the group keeps its phase-1 verdict (counted as hang with
     // the limit it was observed at); if any finishes, the whole group is re-run with FULL.
     let confirm = tier.pick(1usize, 3usize);
@@ -1668,9 +1700,10 @@ fn main() {
     }
     let phase1_timeouts: usize = groups.values().map(|g| g.len()).sum();
     let mut rerun: Vec<usize> = vec![];
+    let take = |len: usize| if len <= SMALL_GROUP { len } else { confirm };
     for g in groups.values_mut() {
         g.sort_by_key(|i| cases[*i].size);
-        rerun.extend(g.iter().take(confirm));
+        rerun.extend(g.iter().take(take(g.len())));
     }
     let redo = vcore::par_for(rerun.len(), JOBS, |k| run_case(&cases[rerun[k]], FULL));
     let mut confirmed_full: BTreeSet<usize> = BTreeSet::new();
@@ -1679,7 +1712,7 @@ fn main() {
     {
         let mut by_idx: BTreeMap<usize, Outcome> = rerun.iter().cloned().zip(redo).collect();
         for g in groups.values() {
-            let head: Vec<usize> = g.iter().take(confirm).cloned().collect();
+            let head: Vec<usize> = g.iter().take(take(g.len())).cloned().collect();
             let all_hang = head.iter().all(|i| by_idx[i].kind == Kind::Hang);
             for i in &head {
                 let o = by_idx.remove(i).unwrap();
@@ -1691,7 +1724,7 @@ fn main() {
                 results[*i] = Some(o);
             }
             if !all_hang {
-                second.extend(g.iter().skip(confirm));
+                second.extend(g.iter().skip(take(g.len())));
             }
         }
     }
@@ -1852,10 +1885,17 @@ fn main() {
         json!({"first_limits": format!("{first:?}"), "full_limits": format!("{FULL:?}"), "over_first_limit": phase1_timeouts,
                "rerun_at_full_limit": rerun.len() + second.len(), "finished_on_rerun": cleared,
                "confirmed_at_full_limit": confirmed_full.len(),
-               "text": "limits are on CPU time of the process (RLIMIT_CPU) with a wall-clock backstop; every case runs with the first limits; per violation key the smallest case(s) over it are re-run with the full limit; \
-                        if one of them finishes the whole group is re-run with the full limit, otherwise the group is reported as hanging"}),
+               "text": "limits are on CPU time of the process (RLIMIT_CPU) with a wall-clock backstop; every case runs with the first limits; the cases over them are grouped by violation key; a group of <= 16 cases is re-run completely \
+                        with the full limits; of a larger group the smallest case(s) are re-run and, if one of them finishes, the whole group; \
+                        otherwise the remaining members keep their first-limit verdict (they may include runs that would have crashed a little later)"}),
     );
     rep.set("mem_cap_bytes", MEM_CAP);
+    let cpu = unsafe {
+        let mut ru: libc::rusage = std::mem::zeroed();
+        libc::getrusage(libc::RUSAGE_CHILDREN, &mut ru);
+        ru.ru_utime.tv_sec as f64 + ru.ru_stime.tv_sec as f64 + (ru.ru_utime.tv_usec + ru.ru_stime.tv_usec) as f64 / 1e6
+    };
+    rep.set("children_cpu_s", (cpu * 10.0).round() / 10.0);
     rep.assume("a diagnostic that reports a caught panic ('A task panicked: …') with exit status 1 and no font is a reported failure, not a violation; such runs are counted in panics_reported_as_errors");
     rep.assume("exit status 2 (command line rejected by clap) with a diagnostic and no font is a clean failure");
     rep.assume("whether a given malformed input must be rejected or may be tolerated (repaired, ignored) is not fixed by the property; only crash, hang, silent failure, leftover font and a structurally unsound font are judged");
